@@ -21,7 +21,7 @@ func init() {
 		Technique: "must-facts at the vote call and at the action effects (member, threshold literal over the same key list), exit-fact exclusion of the action on the quiet return, operator-normalised boundary agreement of the 20-block window between sibling functions, term check of the refreshed ballot, membership-loop dominance of the voter insertion",
 		Explanation: "For cheque, alphabetUpdate, setConfig and innerRingCandidateRemove in notary-disabled mode: D1 the voter passed to common.Vote is established non-empty and is the element of the stored Alphabet list whose witness was checked. " +
 			"D2 the action's effects are reachable only under ¬(n < ⌊2·len(K)/3⌋+1) with n the result of that Vote call and K the same stored list, the return under n < threshold executes none of them, and RemoveVotes is called with the same decision id before the action. " +
-			"D3 Vote treats a ballot as expired exactly when TryPurgeVotes does not treat it as alive (gap > 20, the same constant), a counted vote stores the ballot with Height = current height and a new ballot starts at the current height. D4 distinct-principal counting: the voter is appended only after it was compared with every recorded voter and found different; the count returned is the length of the voter list; ballots of other ids are carried over unchanged. M: vote actions fire at every non-quiet return; common.Vote keeps a ballot only on the not-expired side, appends a new ballot only when none was found and visits every ballot; TryPurgeVotes answers false only on the alive side and purges after all were found expired; RemoveVotes removes at the index of the id match; loaders getBallots/getAlphabetNodes.",
+			"D3 Vote treats a ballot as expired exactly when TryPurgeVotes does not treat it as alive (gap > 20, the same constant), a counted vote stores the ballot with Height = current height and a new ballot starts at the current height. D4 distinct-principal counting: the voter is appended only after it was compared with every recorded voter and found different; the count returned is the length of the voter list; ballots of other ids are carried over unchanged. M: vote actions fire at every non-quiet return; common.Vote keeps a ballot only on the not-expired side, appends a new ballot only when none was found and visits every ballot; TryPurgeVotes answers false only on the alive side and purges after all were found expired; RemoveVotes removes at the index of the id match; loaders getBallots/getAlphabetNodes. R6: the ballot id handed to Vote may depend on the decision id the method was called with (SSA backward slice; certain independence is reported).",
 		NotCovered: "timing over block schedules and competing ids at run time; the notary-enabled branch is C03.",
 		Run:        runC17,
 	})
@@ -31,7 +31,7 @@ func init() {
 		Technique: "must-facts at the notification/transfer sites (caller, amount bounds, checked results), canonical arithmetic terms of the shares, loop-shape of the per-node transfers",
 		Explanation: "D1 neofs.OnNEP17Payment notifies Deposit only under caller = GAS ∧ 0 < amount ≤ 9000·10^8 with receiver ∈ {20-byte data, sender}. D2 Withdraw: W(user), 0 ≤ amount ≤ 9000, exactly one fee transfer to the stored Processing address with Notary or one per stored Alphabet key without, amount = configured WithdrawFee, every transfer result checked, notified amount = amount·10^8. " +
 			"D3 Cheque pays exactly gas.Transfer(self → user, amount) once, result checked, and notifies the same terms. D4 InnerRingCandidateAdd charges the configured fee from the standard account of the witnessed key to the contract with the marker OnNEP17Payment ignores. " +
-			"D5 alphabet.Emit: proxy share = g/2, node share = (g − g/2)·7/8/len(InnerRing) with the same list that is iterated, one transfer per element, loop-invariant amount. D6 OnNEP17Payment of Proxy/Processing (GAS) and Alphabet (GAS ∨ NEO) cannot return normally otherwise. D7 Cheque runs the vote-protocol rules of C17 itself (paid once: the ballot of the same id is removed before the payout). M: the deposit callback aborts only for the documented reasons and reports every accepted payment but the marker one; Withdraw faults only without W(user), outside [0, 9000] or after a failed fee transfer; a candidate is charged and stored exactly when not stored yet; the Emit loop is gone round only for a zero share.",
+			"D5 alphabet.Emit: proxy share = g/2, node share = (g − g/2)·7/8/len(InnerRing) with the same list that is iterated, one transfer per element, loop-invariant amount. D6 OnNEP17Payment of Proxy/Processing (GAS) and Alphabet (GAS ∨ NEO) cannot return normally otherwise. D7 Cheque runs the vote-protocol rules of C17 itself (paid once: the ballot of the same id is removed before the payout). M: the deposit callback aborts only for the documented reasons and reports every accepted payment but the marker one; Withdraw faults only without W(user), outside [0, 9000] or after a failed fee transfer; a candidate is charged and stored exactly when not stored yet; the Emit loop is gone round only for a zero share. R6: no abort of the deposit callback is reachable with the candidate-fee marker as data (the fee is a setting, the deposit limits do not apply to it).",
 		NotCovered: "the GAS balance identity over histories; behaviour of the native contracts.",
 		Run:        runC19,
 	})
@@ -77,6 +77,42 @@ func voteProtocol(cx *CheckCtx, names []string) int {
 		nCalls++
 		v := votes[0]
 		voteFrame := v.Ctx.kids[v.Instr]
+		// D0 the ballot is the decision's: the id handed to Vote may depend on the decision id the method was
+		// called with (for the candidate removal, which has no id, on the candidate key). Decided on the SSA
+		// form by a backward slice that over-approximates dependence: "independent" is certain.
+		{
+			pn := "id"
+			if name == "InnerRingCandidateRemove" {
+				pn = "key"
+			}
+			var dp *ssa.Parameter
+			for _, p := range m.Fn.Params {
+				if p.Name() == pn {
+					dp = p
+				}
+			}
+			if dp == nil {
+				if pi, ok := abiParamOrder["neofs."+name]; ok {
+					for i, n := range pi {
+						if n == pn && i < len(m.Fn.Params) {
+							dp = m.Fn.Params[i]
+						}
+					}
+				}
+			}
+			var vc ssa.CallInstruction
+			if v.Instr != nil && v.Instr.Parent() == m.Fn {
+				vc = v.Instr
+			}
+			switch {
+			case dp == nil:
+				cx.undecided("ballot-id", key, name+" has no parameter "+pn+" any more: the decision the ballot belongs to cannot be identified", w.pos(m.Fn.Pos()))
+			case vc == nil || len(vc.Common().Args) < 2:
+				cx.holds("ballot-id", key, "the Vote call is made through a helper: dependence of the ballot id on the decision "+pn+" not decided here")
+			default:
+				cx.decide(ssaMayDependOn(vc.Common().Args[1], dp), "ballot-id", key, "the ballot id handed to Vote is computed from the decision "+pn+" of the call", name+" collects its votes under "+v.Args[1].pretty()+", which is computed without the decision "+pn+" the method was called with: votes for different decisions are counted together (and votes for one decision may be split)", v.Where(w))
+			}
+		}
 		// D1 voter
 		voter := a.Canon(v.In, v.Args[2])
 		okMem := false
@@ -130,11 +166,17 @@ func voteProtocol(cx *CheckCtx, names []string) int {
 		}
 		// the comparison literal n < threshold, with the threshold term read modulo the
 		// equalities known at the vote call (the key list is held in a variable)
+		// "below the threshold" as a signed literal: n < thr, or — the same thing for integers —
+		// ¬(thr−1 < n), which is how `n <= twoThirds` reads
 		var ltLit int32
+		thrM1 := tb.binop(token.SUB, thr, tb.constInt(1), intType)
 		for id := int32(1); id < int32(len(a.lt.lits)); id++ {
 			l := a.lt.lits[id]
 			if l.Kind == KLt && l.A == n && a.Canon(v.In, l.B) == thr {
 				ltLit = id
+			}
+			if l.Kind == KLt && l.B == n && a.Canon(v.In, l.A) == thrM1 && ltLit == 0 {
+				ltLit = -id
 			}
 		}
 		if ltLit == 0 {
@@ -267,12 +309,18 @@ func runC17Common(cx *CheckCtx, w *World) {
 		var out []bnd
 		for _, b := range fn.Blocks {
 			for _, ins := range b.Instrs {
-				bo, ok := ins.(*ssa.BinOp)
-				if !ok {
-					continue
+				// the comparison itself, or a call of a helper whose (inlined) result is the comparison
+				var t *Term
+				var pos token.Pos
+				switch x := ins.(type) {
+				case *ssa.BinOp:
+					t, pos = tb.Term(tb.root, x), x.Pos()
+				case *ssa.Call:
+					if cal := x.Common().StaticCallee(); cal != nil && cal.Blocks != nil && isBool(x.Type()) {
+						t, pos = tb.Term(tb.root, x), x.Pos()
+					}
 				}
-				t := tb.Term(tb.root, bo)
-				if t.Op != "bin" || len(t.Args) != 2 {
+				if t == nil || t.Op != "bin" || len(t.Args) != 2 {
 					continue
 				}
 				isGap := func(z *Term) bool {
@@ -283,13 +331,13 @@ func runC17Common(cx *CheckCtx, w *World) {
 				cy, oky := y.IntConst()
 				switch {
 				case t.Name == "<" && okx && isGap(y): // c < gap
-					out = append(out, bnd{">", cx2, bo.Pos()})
+					out = append(out, bnd{">", cx2, pos})
 				case t.Name == "<=" && okx && isGap(y): // c <= gap
-					out = append(out, bnd{">=", cx2, bo.Pos()})
+					out = append(out, bnd{">=", cx2, pos})
 				case t.Name == "<=" && oky && isGap(x): // gap <= c ≡ ¬(gap > c)
-					out = append(out, bnd{">", cy, bo.Pos()})
+					out = append(out, bnd{">", cy, pos})
 				case t.Name == "<" && oky && isGap(x): // gap < c ≡ ¬(gap >= c)
-					out = append(out, bnd{">=", cy, bo.Pos()})
+					out = append(out, bnd{">=", cy, pos})
 				}
 			}
 		}
@@ -749,6 +797,17 @@ func runC19(cx *CheckCtx) {
 					okQuiet = false
 				}
 			}
+			// the marked payment (the candidate fee the contract sends to itself) is never refused: no abort
+			// can be reached with data equal to the marker, whatever the amount — the fee is a setting
+			okMarked := len(markerLits) > 0
+			for _, s := range a.Sites(func(s *Site) bool { return strings.HasSuffix(s.Callee, ".AbortWithMessage") }) {
+				for _, ml := range markerLits {
+					if a.satisfiable(s.In, []int32{ml}, nil) {
+						okMarked = false
+					}
+				}
+			}
+			cx.decide(okMarked, "deposit", "neofs.OnNEP17Payment/marker-first", "a payment carrying the candidate-fee marker is accepted whatever its amount", "a payment carrying the candidate-fee marker can be refused (the deposit limits are applied to it): with a candidate fee configured as 0 or above 9000 GAS no candidate can register", dep.Where(w))
 			cx.decide(okQuiet && len(markerLits) > 0, "deposit", "neofs.OnNEP17Payment/reported", "every accepted payment is reported, except the one carrying the candidate-fee marker", "a GAS payment can be accepted without a Deposit notification (received GAS is not accounted to anybody)", dep.Where(w))
 			cx.decide(okRej && nRej > 0, "deposit", "neofs.OnNEP17Payment/accepts", "aborts only for amount ≤ 0, amount > 9000 GAS, a non-GAS caller or data that is not 20 bytes (or empty)", "a deposit inside (0, 9000 GAS] paid in GAS is refused", dep.Where(w))
 			cx.decide(okA, "deposit", "neofs.OnNEP17Payment/args", "Deposit(sender, amount, 20-byte data | sender, tx)", "the Deposit notification carries "+termList(args)+": amount or receiver differ from what was paid", dep.Where(w))
